@@ -187,6 +187,12 @@ func init() {
 		}
 	}
 	register(&opDef{name: "nat.lsh", weight: 8, gen: genShift(true),
+		key: func(c *tcase) string {
+			if cp := ai(c, 3); cp >= 0 && tr(ai(c, 1), c.args[0]).BitLen()+ai(c, 2) > cp {
+				return "lsh-cap-not-truncated"
+			}
+			return "arith-nat.lsh"
+		},
 		impl: shiftImpl(func(o, x *numct.Nat, s uint, c int) { o.LshCap(x, s, c) }),
 		orac: func(c *tcase) string {
 			ax, s := ai(c, 1), ai(c, 2)
@@ -287,6 +293,12 @@ func init() {
 			}
 			q, m := new(big.Int).DivMod(x, y, new(big.Int))
 			return okz(q, m)
+		},
+		key: func(c *tcase) string {
+			if (c.mode == 1 || c.mode == 3 || c.mode == 5) && ai(c, 1)-tr(ai(c, 3), c.args[2]).BitLen()+2 < 0 {
+				return "divvartime-small-numerator-panics"
+			}
+			return "arith-nat.div"
 		},
 		trivial: func(c *tcase, impl string) bool { return impl == "refuse" }})
 
